@@ -20,6 +20,8 @@ FIELDS = ["rss", "size", "pss", "shared_clean", "shared_dirty", "private_clean",
 KEY_OF = {"rss": "Rss", "size": "Size", "pss": "Pss", "shared_clean": "Shared_Clean", "shared_dirty": "Shared_Dirty",
           "private_clean": "Private_Clean", "private_dirty": "Private_Dirty", "referenced": "Referenced",
           "anonymous": "Anonymous", "swap": "Swap"}
+CALLS = ["info", "full", "maps", "grouped", "pct:rss", "pct:uss"]
+CONTEXTS = ["plain", "oneshot", "as_dict"]
 OPTS = ["vmflags", "thp", "pkey", "Private_Hugetlb", "SwapPss", "Pss_Dirty"]
 
 
@@ -177,6 +179,71 @@ def _run_case(case, st):
                 bad.append(("memory_maps:grouped:deleted-suffix-decided-from-an-earlier-call", "step %d of %r: rows %r, expected %r" % (step, seqs, gg, sorted(grouped))))
         w.remove("/tmp/q (deleted)")
         return bad
+    if k == "call-order":
+        # every ordered word over the memory calls put to ONE object in one context (no block / inside one oneshot() block / through
+        # as_dict() inside one block): each answer is the kernel's figures whatever was asked before it; memory_info() is exactly
+        # the seven statm columns (names and values), memory_full_info() exactly those plus uss, pss, swap
+        ctx_, word = case[1], case[2]
+        p.maps = [mk_mapping(0, b"/lib/a.so", 3, ("Private_Hugetlb",)), mk_mapping(1, b"", 5, ("Private_Hugetlb",)), mk_mapping(2, b"/lib/a.so", 7, ("Private_Hugetlb",))]      # (optional lines: the same set on every mapping, as one kernel prints them)
+        total_kb = 16000000
+        w.set_file("/proc/meminfo", b"MemTotal: %d kB\nMemFree: 1 kB\nMemAvailable: 1 kB\nBuffers: 0 kB\nCached: 0 kB\nActive: 0 kB\nInactive: 0 kB\nShmem: 0 kB\n" % total_kb)
+        uss, pss, swap, rows, grouped = ref(w, p.maps)
+
+        def basic(s):
+            return dict(rss=s[1] * PAGESIZE, vms=s[0] * PAGESIZE, shared=s[2] * PAGESIZE, text=s[3] * PAGESIZE,
+                        lib=s[4] * PAGESIZE, data=s[5] * PAGESIZE, dirty=s[6] * PAGESIZE)
+        exp_info = basic(p.statm)
+        exp_full = dict(exp_info, uss=uss, pss=pss, swap=swap)
+        AS_DICT = {"info": "memory_info", "full": "memory_full_info", "grouped": "memory_maps", "pct:rss": "memory_percent"}
+
+        def ask(op):
+            if ctx_ == "as_dict" and op in AS_DICT:
+                return pr.as_dict(attrs=[AS_DICT[op]])[AS_DICT[op]]
+            if op == "info":
+                return pr.memory_info()
+            if op == "full":
+                return pr.memory_full_info()
+            if op == "maps":
+                return pr.memory_maps(grouped=False)
+            if op == "grouped":
+                return pr.memory_maps(grouped=True)
+            return pr.memory_percent(op[4:])
+
+        def judge_(op, r, exp_info, exp_full):
+            if op == "info":
+                return dict(zip(r._fields, r)) == exp_info and len(r) == len(exp_info)
+            if op == "full":
+                return dict(zip(r._fields, r)) == exp_full and len(r) == len(exp_full)
+            if op == "maps":
+                return [dict(addr=x.addr, perms=x.perms, path=x.path, **{f: getattr(x, f) for f in FIELDS}) for x in r] == rows
+            if op == "grouped":
+                return {x.path: {f: getattr(x, f) for f in FIELDS} for x in r} == grouped and len(r) == len(grouped)
+            e = exp_full[op[4:]] / float(total_kb * 1024) * 100
+            return abs(r - e) <= 1e-9 * max(1, abs(e))
+
+        def whole():
+            if ctx_ == "plain":
+                return [ask(op) for op in word]
+            with pr.oneshot():
+                return [ask(op) for op in word]
+        got = outcome(whole)
+        if got[0] != "ok":
+            bad.append(("call-order:%s:raised:%s" % (ctx_, got[1]), "%r in context %s -> %r" % (word, ctx_, got)))
+        else:
+            for i, (op, r) in enumerate(zip(word, got[1])):
+                if not judge_(op, r, exp_info, exp_full):
+                    bad.append(("call-order:%s:%s-wrong-after-earlier-calls" % (ctx_, op.split(":")[0]),
+                                "call %d of %r in context %s -> %r; expected memory_info %r, uss/pss/swap %r"
+                                % (i, word, ctx_, r, exp_info, (uss, pss, swap))))
+        # afterwards (outside any block) the kernel's record changes: memory_info() / memory_full_info() are read afresh
+        p.statm = (311, 312, 313, 314, 315, 316, 317)
+        exp_info2 = basic(p.statm)
+        for op in ("info", "full"):
+            got = outcome(pr.memory_info if op == "info" else pr.memory_full_info)
+            if got[0] != "ok" or not judge_(op, got[1], exp_info2, dict(exp_info2, uss=uss, pss=pss, swap=swap)):
+                bad.append(("call-order:%s:%s-wrong-after-the-word" % (ctx_, op),
+                            "after %r in context %s and a changed statm: %s -> %r; expected memory_info %r" % (word, ctx_, op, freeze(got), exp_info2)))
+        return bad
     if k == "percent-seq":
         # the total that memory_percent() divides by is the one of the LATEST virtual_memory() reading
         p.maps = [mk_mapping(0, b"/lib/a.so", 3, ("Private_Hugetlb",))]
@@ -212,7 +279,8 @@ def _run_case(case, st):
 
 
 def run_case(case, st):
-    return LongLived.both(_run_case, case, st, repoint=case[0] not in ("percent", "percent-seq"))      # (memory_percent divides by a system-wide figure)
+    return LongLived.both(_run_case, case, st, repoint=case[0] not in ("percent", "percent-seq")
+                          and not (case[0] == "call-order" and any(op.startswith("pct:") for op in case[2])))      # (memory_percent divides by a system-wide figure)
 
 
 def worker(chunk):
@@ -259,6 +327,13 @@ def build_cases(thorough):
     for nm in ("rss", "vms", "data"):
         for totals in ((8000000, 16000000, 4000000), (1000, 1000, 2000)):
             cases.append(("percent-seq", nm, totals))
+    # call order: every word of <= 3 (thorough: 4) calls over the memory calls, in each context
+    words = []
+    for n in range(1, (4 if thorough else 3) + 1):
+        words += list(itertools.product(CALLS, repeat=n))
+    for ctx_ in CONTEXTS:
+        for word in words:
+            cases.append(("call-order", ctx_, word))
     return cases
 
 
@@ -283,7 +358,8 @@ def run(ctx):
                    "rendered by simk and read through memory_info, memory_full_info, memory_maps(both forms), memory_percent; "
                    "distinct by construction",
            "per_dimension": kinds, "exhaustive": True, "samples": [list(c) for c in sample(cases, 6)],
-           "bounds": "all lists of <= %d mappings over %d paths x 3 roll-up modes; all subsets of %d optional lines" % (4 if ctx.thorough else 2, len(PATHS), len(OPTS))}
+           "bounds": "all lists of <= %d mappings over %d paths x 3 roll-up modes; all subsets of %d optional lines" % (4 if ctx.thorough else 2, len(PATHS), len(OPTS))
+                     + "; all words of <= %d calls over %d memory calls x %d contexts (no block / one oneshot() block / as_dict() in a block)" % (4 if ctx.thorough else 3, len(CALLS), len(CONTEXTS))}
     return {"coverage": cov, "violations": add_histories(viols, cases, n, list), "assumptions": ["smaps rendered like fs/proc/task_mmu.c show_smap(); roll-up = field-wise sums"]}
 
 
@@ -301,5 +377,7 @@ def replay(ctx, case):
             c = (c[0], c[1], tuple(c[2]))
         if c[0] == "deleted-flip":
             c = (c[0], tuple(c[1]))
+        if c[0] == "call-order":
+            c = (c[0], c[1], tuple(c[2]))
         bad = guarded(run_case, c, (w, p))
     return {"violated": bool(bad), "viols": bad}
